@@ -606,6 +606,13 @@ STD_TRUST = [
     "CPython 3.12, numpy, pandas, scipy; harness generators/comparators/oracles",
 ]
 
+MINIC_TRUST = [
+    "C kernels -> MiniC: clang 14 parser/JSON AST dump + harness/ctrans.py (fail-closed per function), regenerated on "
+    "every run into coq/Gen/KernelsAst.v; MiniC semantics (coq/Base/MiniC.v: unbounded integers - overflow not modelled; "
+    "bounds-checked arrays; lazy &&, ||, ?:; glibc merge sort for qsort) as a description of the gcc-compiled code, "
+    "validated on every run by harness/kernels_tie.py (sampled, bit-exact in binary64 inside Coq)",
+]
+
 
 def prove(ctx, pid=None, extra_targets=(), extractors=None):
     """Regenerate constants, build the property's theorems, record obligations.
@@ -653,6 +660,27 @@ def _prove_locked(ctx, pid, extra_targets, extractors):
     if res["assumption_blocks"] < len(res["theorems"]):
         ctx.notes["print_assumptions_missing"] = len(res["theorems"]) - res["assumption_blocks"]
     return True
+
+
+def prove_with_kernels(ctx, kernels, extractors=None, **kw):
+    """cm.prove for a property whose Props file contains theorems about the REGENERATED MiniC
+    program (Gen/KernelsAst.v, extractor `minic`), followed by the tie of the translator and
+    the interpreter with the compiled kernels `kernels` (harness/kernels_tie.py)."""
+    ex = [ctx.pid.lower()] if extractors is None else list(extractors)
+    if "minic" not in ex:
+        ex.append("minic")
+    proved = prove(ctx, extractors=ex, **kw)
+    for t in MINIC_TRUST:
+        if t not in ctx.trusted:
+            ctx.trusted = list(ctx.trusted) + [t]
+    from harness import kernels_tie
+    try:
+        kernels_tie.check(ctx, kernels)
+    except Exception as e:      # fail-closed: the tie could not be run
+        ctx.obligation("MiniC tie ran", False)
+        ctx.failure(f"{ctx.pid}/minic-tie", {"broken": "kernels_tie", "error": f"{type(e).__name__}: {e}"},
+                    f"the MiniC tie could not be run ({type(e).__name__})", nofail=True)
+    return proved
 
 
 # ----------------------------------------------------------------------------
